@@ -90,6 +90,16 @@ def check(prop, tier, seed):
             if r.get('violated'):
                 raise ToolError(f'{big}: {r.get("violated")}\n' + r.get('output_tail', '')[-2500:])
             mc.append(r)
+    # unbounded: TLAPS proof of the safety clauses for any number of connections and calls
+    pr = core.tlapm_check('ShutdownProof', ['Shutdown'])
+    if not pr['ok']:
+        raise ToolError('tlapm: the safety proof of Shutdown.tla (ShutdownProof.tla) no longer goes through:\n' + pr.get('output_tail', ''))
+    cov['tlaps_proof'] = {'theorems': 'Spec => [](NoLoss /\\ ResolveLate); Spec => NoAcceptAfter; for all Conns, Calls, ConnOf, Items', 'obligations_proved': pr['obligations'], 'wall_s': pr['wall_s']}
+    if tier == 'thorough':
+        neg = core.tlapm_check('ShutdownProof', ['Shutdown'], name='ShutdownProof_neg', mutate=lambda t: t.replace('DrainGracefully = TRUE', 'DrainGracefully \\in BOOLEAN'))
+        if neg['ok']:
+            raise ToolError('tlapm proved the safety theorem without assuming DrainGracefully: the proof is vacuous')
+        cov['tlaps_proof']['without_drain_assumption'] = 'proof fails (as it must)'
     mc.append(core.tlc_mc('MC_Shutdown', 'MC_Shutdown_nowait.cfg', workers=4, expect_violation='ResolveLate'))
     mc.append(core.tlc_mc('MC_Shutdown', 'MC_Shutdown_nodrain.cfg', workers=4, expect_violation='NoLoss'))
     n = 3000 if tier == 'thorough' else 500
@@ -116,7 +126,7 @@ def check(prop, tier, seed):
                           'the server side of each connection (task started / saw the signal / aged / finished) and of the accept loop is observed through the events of feature verif-hooks',
                           'Mechanism-level trace validation covers the TLC-exported schedules (fixed topologies); the biased random schedules are validated at Contract level only',
                           'virtual time, single-threaded runtime; fragmentation quanta vary per schedule'],
-                         'tlc MC_Shutdown*.cfg, Gen_Shutdown.cfg (-simulate); vh shutdown; tlc Trace_Shutdown.cfg; tlc Trace_ShutdownMech.cfg')
+                         'tlc MC_Shutdown*.cfg, Gen_Shutdown.cfg (-simulate); tlapm ShutdownProof.tla; vh shutdown; tlc Trace_Shutdown.cfg; tlc Trace_ShutdownMech.cfg')
 
 
 def replay(prop, path):
